@@ -14,6 +14,24 @@ theorem M.bind_assoc {α β γ} (m : M α) (f : α → M β) (g : β → M γ) :
   | error e => rfl
   | ok r => rfl
 
+/-- a spec that holds for two footprints gives both frames (the second relative to a named initial heap) -/
+theorem TripleS.with_frame {α} {n0 : Nat} {S S' : Nat → Bool} {P : Heap → Prop} {m : M α} {Q Q' : α → Heap → Prop}
+    (t1 : TripleS n0 S P m Q) (t2 : TripleS n0 S' P m Q') (h0 : Heap) :
+    TripleS n0 S (fun h => h = h0 ∧ P h) m (fun a h' => Q a h' ∧ Q' a h' ∧ Frame S' h0 h') := by
+  intro h hn ⟨e, hp⟩
+  subst e
+  have a := t1 h hn hp
+  have b := t2 h hn hp
+  unfold SafeX at *
+  cases hm : m h with
+  | error e =>
+    rw [hm] at a
+    cases e <;> simp_all
+  | ok r =>
+    obtain ⟨x, h'⟩ := r
+    rw [hm] at a b
+    exact ⟨⟨a.1, b.1, b.2⟩, a.2⟩
+
 structure SameBut (h h' : Heap) (X : Nat → Nat → Prop) : Prop where
   word : ∀ b j, ¬ X b j → wordAt h' b j = wordAt h b j
   st : ∀ b j, ¬ X b j → stAt h' b j = stAt h b j
